@@ -15,7 +15,7 @@ CHECKS: dict[str, tuple[str, str, str, str]] = {
         " exit status 0 iff compliant on all output paths, the per-result effect table of"
         " ProjectReport.generate, the files_without_* filters and the all-sources construction of the"
         " per-file fields. This is a necessary condition of the behavioural property, decided for all"
-        " paths; it is not a proof that extraction/coverage underneath is right for every tree.",
+        " paths; it is not a proof that extraction/coverage underneath is right for every tree. Also shares C03's decision table of is_path_ignored (which files are covered at all).",
         "Trusted: CPython ast, the tabulator (sa/tab.py). Not decided: lower layers (C02-C06).",
         "DESIGN.md §3 C01",
     ),
@@ -27,7 +27,7 @@ CHECKS: dict[str, tuple[str, str, str, str]] = {
         " prunes/yields accordingly, that every call chain enumerating files forwards the include flags, the"
         " VCS strategy and the subset unchanged, and that VCS readers' flags and separators agree. Necessary"
         " structural conditions decided for all paths/names; Git's own ignore answer is an external run-time"
-        " oracle and is not decided.",
+        " oracle and is not decided. VCS membership tests (is_ignored / is_submodule of every strategy) compare paths of the same base (units-of-measure check: query made root-relative, collected sets root-relative); the report's file list is subset_files(F) whenever F was given, even empty.",
         "Trusted: CPython ast, re._parser, sa/relang.py, sa/tab.py, sa/fold.py. Names exclude '/', NUL, CR, LF.",
         "DESIGN.md §3 C03",
     ),
@@ -37,7 +37,7 @@ CHECKS: dict[str, tuple[str, str, str, str]] = {
         " {a . / * \\} up to length 5 (quick) / 8 plus 60k seeded random globs to length 16 (thorough) the produced"
         " regular expression is compared, for paths of any length, with the narrowest and widest reading of the"
         " specification by language inclusion. Bounded in the glob length only; the path quantifier is unbounded."
-        " Decides the translation and the matcher wiring, not tomlkit or pathlib behaviour.",
+        " Decides the translation and the matcher wiring, not tomlkit or pathlib behaviour. The selection of the annotation table is a decision table whose outcome depends only on whether some table matches the POSIX path.",
         "Trusted: CPython ast, re._parser (assumed to describe what re compiles), sa/transducer.py, sa/relang.py."
         " Known finding (class B) is recognised by language equality with a frozen defect model, so any other"
         " deviation is still a violation.",
@@ -50,7 +50,7 @@ CHECKS: dict[str, tuple[str, str, str, str]] = {
         " version, line splitting, paragraph order - including a lint that nothing sorts, reverses, slices or re-assigns the"
         " table list between its construction and the dump, since both formats let the last match win), and - for every legal dep5 glob over {a / * ? \\} up to length"
         " 5 (quick) / 7 (thorough) and paths of any length - equality of the DEP5 glob language with the language"
-        " of the converted glob under the extracted REUSE.toml matcher. Equality of whole lint reports is not decided.",
+        " of the converted glob under the extracted REUSE.toml matcher. Equality of whole lint reports is not decided. On the exceptional path where the write of REUSE.toml fails nothing is removed.",
         "Trusted: ast, re._parser, stdlib re applied to the two folded converter constants, DEP5's documented glob"
         " semantics for python-debian, sa/transducer.py, sa/relang.py. Known findings are recognised by equality"
         " with a frozen defect model.",
@@ -118,7 +118,7 @@ CHECKS: dict[str, tuple[str, str, str, str]] = {
         " JSON lists; the plain verdict sentence follows is_compliant; ProjectSubsetReport's verdict, filters and"
         " propagation agree with ProjectReport's on the four shared categories and with what format_lines_subset"
         " prints; lint-file exits 0 iff compliant on every path and rejects outside files before generating."
-        " Textual equality of rendered paths is not decided.",
+        " Textual equality of rendered paths is not decided. The subset report examines subset_files(F) whenever F was given (an empty F is not 'no subset').",
         "Trusted: ast, sa/tab.py.",
         "DESIGN.md §3 C13",
     ),
@@ -152,7 +152,7 @@ CHECKS: dict[str, tuple[str, str, str, str]] = {
         " effect at all and return a non-zero result; skipped files have no effect; per-file results are accumulated"
         " with no early exit and the command exits min(sum, 1); every usage-error pre-flight precedes the loop, raises"
         " click.UsageError and has no effects; every option of a mutex table is declared MutexOption with that"
-        " table; the anticipated failures (unsupported form, premature terminator) are raised.",
+        " table; the anticipated failures (unsupported form, premature terminator) are raised. Every path of _create_new_header that returns a header has evaluated the post-render check (shared with C07-R1; the recorded `and` defect is a known finding here too).",
         "Trusted: ast, sa/tab.py, syntactic table of file-system mutators. OS failures of the final write are out of scope.",
         "DESIGN.md §3 C11",
     ),
@@ -163,7 +163,7 @@ CHECKS: dict[str, tuple[str, str, str, str]] = {
         " keyword arguments of template.render ⊆ variables of the default template, with equal tag literals on both"
         " sides; unchanged forwarding of every option along the five-function annotate chain (rename table); the"
         " .license-target and comment-style decision tables; sanity of the folded style tables (29 classes, 261+64"
-        " map entries). That rendering plus commenting round-trips every value is run-time behaviour and not decided.",
+        " map entries). That rendering plus commenting round-trips every value is run-time behaviour and not decided. Every jinja2 Environment is constructed without autoescape / finalize / extensions (values are written verbatim).",
         "Trusted: ast, sa/tab.py, sa/fold.py, Jinja2's parser (no rendering).",
         "DESIGN.md §3 C07",
     ),
@@ -173,7 +173,7 @@ CHECKS: dict[str, tuple[str, str, str, str]] = {
         " (newline=''), line endings are detected before normalisation and the same variable is the newline= of the"
         " write to the same file; that shebang extraction precedes header creation and feeds `before`; that the three"
         " text sections are chained slices of one string; that a BOM is split off before processing and written back"
-        " first. Byte-for-byte preservation of arbitrary bodies is run-time string behaviour and not decided.",
+        " first. Byte-for-byte preservation of arbitrary bodies is run-time string behaviour and not decided. Every comment_at_first_character returns a prefix of its argument (its length is used as the cut offset).",
         "Trusted: ast, sa/tab.py.",
         "DESIGN.md §3 C08",
     ),
@@ -209,7 +209,7 @@ CHECKS: dict[str, tuple[str, str, str, str]] = {
         " lie within what click turns into a diagnostic; each other pair is a violation unless it is one of nine named,"
         " reasoned infeasible origins whose side conditions are checked. Plus: parsed TOML values are type-checked"
         " before being iterated/indexed, the per-file isolation handler is as broad as Exception, parse errors carry"
-        " or receive the file name. OS faults outside the modelled exceptions are not decided.",
+        " or receive the file name. OS faults outside the modelled exceptions are not decided. Bytes are decoded with an error mode whose result can be encoded again (no surrogateescape / surrogatepass).",
         "Trusted: ast, mypy's resolution and MROs, table T2. Known findings are keyed by exception and origin construct.",
         "DESIGN.md §3 C16",
     ),
@@ -220,7 +220,7 @@ CHECKS: dict[str, tuple[str, str, str, str]] = {
         " the three template arguments are sorted (so identical arguments give identical headers under any hash seed);"
         " that for none of the 29 folded comment styles the multi-line opener starts with the single-line marker while"
         " single-line detection runs first (the tool must find the header it wrote); that the comment writer and the"
-        " block finder agree; and the no-separator cell of place_header. Byte identity for all bodies is not decided.",
+        " block finder agree; and the no-separator cell of place_header. Byte identity for all bodies is not decided. The year range annotate writes is already in the merger's canonical form (get_year table shared with C20).",
         "Trusted: ast, mypy types, sa/taint.py, sa/fold.py, sa/tab.py, canonisers of table T3.",
         "DESIGN.md §3 C10",
     ),
